@@ -171,3 +171,13 @@ def _outer_distance_mod_n(ref: Arr(Real, None), est: Arr(Real, None), modulus: R
 def intervals_to_durations(intervals: Arr(Real, None, 2)) -> Arr(Real, None):
     raises(ValueError, when=not forall(0, length(intervals), lambda i: 0 <= intervals[i, 0] and 0 <= intervals[i, 1] and intervals[i, 0] < intervals[i, 1]), props="C14")
     ensures(length(result) == length(intervals), forall(0, length(intervals), lambda i: result[i] == absr(intervals[i, 1] - intervals[i, 0])), label='durations')
+
+
+@contract("mir_eval.beat.trim_beats", props="C03 C14", mask_triggers=True)
+def trim_beats(beats: Arr(Real, None), min_beat_time: Real = 5.0) -> Arr(Real, None):
+    """exactly the beats at or after min_beat_time, in their original order"""
+    ensures(forall(0, length(result), lambda k: result[k] >= min_beat_time), label='only-late-beats', props="C03")
+    ensures(length(result) <= length(beats), label='no-more-than-given', props="C03")
+    ensures(forall(0, length(beats), lambda i: implies(beats[i] >= min_beat_time, exists(0, length(result), lambda k: result[k] == beats[i]))),
+            label='every-late-beat-kept', props="C03")
+    ensures(implies(sorted_events(beats), sorted_events(result)), label='order-kept', props="C03")
